@@ -85,11 +85,14 @@ impl Cell {
     fn raw_of(&self, v: i64) -> u64 { if self.is_float() { (v as f64).to_bits() } else { v as u64 } }
 }
 
+const TINY: f64 = 8.470329472543003e-22; // 2^-70
 fn run_atom_op(cell: &Cell, op: &str) -> String {
     let (name, arg) = match op.split_once(':') { Some((n, a)) => (n, a.parse::<i64>().unwrap()), None => (op, 0) };
     match (cell, name) {
         (Cell::C(c), "inc") => { c.inc(); "".into() } (Cell::C(c), "incby") => { c.inc_by(arg as f64); "".into() } (Cell::C(c), "get") => format!("{:x}", c.get().to_bits()), (Cell::C(c), "reset") => { c.reset(); "".into() }
         (Cell::C(c), "lflush") => { let l = c.local(); l.inc_by(arg as f64); l.flush(); "".into() }
+        // amounts far below f64::EPSILON (k * 2^-70, exact): an update must not be dropped because it is "practically zero"
+        (Cell::C(c), "incbyu") => { c.inc_by(arg as f64 * TINY); "".into() } (Cell::G(g), "addu") => { g.add(arg as f64 * TINY); "".into() } (Cell::G(g), "subu") => { g.sub(arg as f64 * TINY); "".into() }
         (Cell::IC(c), "inc") => { c.inc(); "".into() } (Cell::IC(c), "incby") => { c.inc_by(arg as u64); "".into() } (Cell::IC(c), "get") => format!("{:x}", c.get()), (Cell::IC(c), "reset") => { c.reset(); "".into() }
         (Cell::IC(c), "lflush") => { let l = c.local(); l.inc_by(arg as u64); l.flush(); "".into() }
         (Cell::G(g), "inc") => { g.inc(); "".into() } (Cell::G(g), "dec") => { g.dec(); "".into() } (Cell::G(g), "add") => { g.add(arg as f64); "".into() } (Cell::G(g), "sub") => { g.sub(arg as f64); "".into() }
@@ -100,11 +103,13 @@ fn run_atom_op(cell: &Cell, op: &str) -> String {
     }
 }
 
-fn atom_apply(float: bool, st: &i64, o: &HOp) -> Option<i64> {
+/// `tiny`: the program's amounts are multiples of 2^-70 (state counted in that unit)
+fn atom_apply(float: bool, tiny: bool, st: &i64, o: &HOp) -> Option<i64> {
     let (name, arg) = match o.op.split_once(':') { Some((n, a)) => (n, a.parse::<i64>().unwrap()), None => (o.op.as_str(), 0) };
     match name {
         "inc" => Some(st.wrapping_add(1)), "dec" => Some(st.wrapping_sub(1)), "incby" | "add" => Some(st.wrapping_add(arg)), "lflush" => Some(st.wrapping_add(arg)), "sub" => Some(st.wrapping_sub(arg)), "set" => Some(arg), "reset" => Some(0),
-        "get" => if o.result == format!("{:x}", if float { (*st as f64).to_bits() } else { *st as u64 }) { Some(*st) } else { None },
+        "incbyu" | "addu" => Some(st.wrapping_add(arg)), "subu" => Some(st.wrapping_sub(arg)),
+        "get" => if o.result == format!("{:x}", if float { (*st as f64 * if tiny { TINY } else { 1.0 }).to_bits() } else { *st as u64 }) { Some(*st) } else { None },
         _ => None,
     }
 }
@@ -115,15 +120,19 @@ impl Area for ConcAtomic {
     fn corpus(&self) -> Vec<Vec<String>> {
         let all: Vec<Vec<String>> = vec![vec!["catom kind=counter prog=incby:1,get|incby:2,get|get,reset sseed=7".into()], vec!["catom kind=intcounter prog=incby:1,lflush:2|inc,get|get sseed=2".into()],
              vec!["catom kind=intgauge prog=add:5,sub:5|set:9,get|dec,get sseed=3".into()], vec!["catom kind=gauge prog=sub:2,sub:1|add:3,get|sub:4 sseed=11".into()],
-             vec!["catom kind=intgauge prog=set:9223372036854775806,add:5,sub:5|get,get sseed=5".into()]];
+             vec!["catom kind=intgauge prog=set:9223372036854775806,add:5,sub:5|get,get sseed=5".into()],
+             vec!["catom kind=gauge prog=addu:1,get|addu:2,subu:1|get sseed=4".into()], vec!["catom kind=counter prog=incbyu:3,get|incbyu:1|get sseed=6".into()]];
         all.into_iter().filter(|c| self.kinds.iter().any(|k| c[0].contains(&format!("kind={} ", k)))).collect()
     }
     fn gen(&self, rng: &mut Rng, _thorough: bool, stats: &mut Stats) -> Vec<String> {
         let kind = *rng.pick(self.kinds);
         stats.hit(&format!("kind:{}", kind));
         let nt = rng.range(2, 3);
+        let tiny = (kind == "gauge" || kind == "counter") && rng.chance(12);
+        if tiny { stats.hit("amounts:2^-70"); }
         let prog: Vec<String> = (0..nt).map(|_| { let n = rng.range(1, 3); (0..n).map(|_| {
-            if kind.contains("counter") { match rng.below(10) { 0..=2 => "inc".to_string(), 3..=5 => format!("incby:{}", rng.range(1, 4)), 6..=7 => "get".into(), 8 => format!("lflush:{}", rng.range(0, 3)), _ => "reset".into() } }
+            if tiny { match rng.below(10) { 0..=4 => format!("{}:{}", if kind == "gauge" { "addu" } else { "incbyu" }, rng.range(1, 4)), 5..=7 => if kind == "gauge" { format!("subu:{}", rng.range(1, 4)) } else { format!("incbyu:{}", rng.range(1, 4)) }, _ => "get".into() } }
+            else if kind.contains("counter") { match rng.below(10) { 0..=2 => "inc".to_string(), 3..=5 => format!("incby:{}", rng.range(1, 4)), 6..=7 => "get".into(), 8 => format!("lflush:{}", rng.range(0, 3)), _ => "reset".into() } }
             else { match rng.below(12) { 0..=1 => "inc".to_string(), 2..=3 => "dec".into(), 4..=5 => format!("add:{}", rng.range(1, 4)), 6..=7 => format!("sub:{}", rng.range(1, 4)), 8..=9 => "get".into(),
                 _ => if kind == "intgauge" && rng.chance(40) { format!("set:{}", rng.pick(&[i64::MAX - 1, i64::MAX - 2, i64::MIN + 1])) } else { format!("set:{}", rng.range(0, 9)) } } }
         }).collect::<Vec<_>>().join(",") }).collect();
@@ -143,13 +152,14 @@ impl Area for ConcAtomic {
             let o = sched::run(bodies, &mut rng, sticky, spur, 4000, None);
             stats.hit("traces"); trace_stats("catom", &o.trace, stats);
             let fin = cell.raw(); let isf = cell.is_float();
+            let tiny = prog.iter().any(|t| t.iter().any(|o| o.split(':').next().unwrap().ends_with('u')));
             let hist = history(&o.trace);
             // ---- oracle: the completed calls are explained by executing them one at a time in an order
             // consistent with real time, and the final value is the value after all of them
             let nt_ops: usize = prog.iter().map(|t| t.len()).sum();
             if o.stuck { fails.push(Failure { class: "stuck".into(), detail: format!("execution did not finish: {}", line) }); }
             else if hist.len() != nt_ops { fails.push(Failure { class: "harness-panic".into(), detail: format!("history incomplete {} of {}", hist.len(), nt_ops) }); }
-            else if !linearizable(&hist, 0i64, &|s, o| atom_apply(isf, s, o), &|s| cell.raw_of(*s) == fin) { fails.push(Failure { class: "not-linearizable".into(), detail: format!("no sequential order consistent with real time explains results {:?} and final value {} for {}", hist.iter().map(|h| format!("t{}:{}={}", h.tid, h.op, h.result)).collect::<Vec<_>>(), fin, line) }); }
+            else if !linearizable(&hist, 0i64, &|s, o| atom_apply(isf, tiny, s, o), &|s| if tiny { (*s as f64 * TINY).to_bits() == fin } else { cell.raw_of(*s) == fin }) { fails.push(Failure { class: "not-linearizable".into(), detail: format!("no sequential order consistent with real time explains results {:?} and final value {} for {}", hist.iter().map(|h| format!("t{}:{}={}", h.tid, h.op, h.result)).collect::<Vec<_>>(), fin, line) }); }
             let concurrent = hist.iter().any(|a| hist.iter().any(|b| a.tid != b.tid && a.call < b.ret && b.call < a.ret));
             stats.seen(&[line.clone()], concurrent);
             let mut names: HashMap<usize, String> = HashMap::new();
